@@ -64,6 +64,7 @@ func NewState() *State {
 		macroState: object.NewMacroEnvironment(),
 		MaxDepth:   DefaultMaxDepth,
 		depth:      0,
+		Context:    context.Background(), // never nil: extensions hand it to the standard library (sleep, exec).
 	}
 	st.rootEnv = st.env
 	return st
@@ -78,6 +79,7 @@ func NewBlankState() *State {
 		Extensions: make(map[string]object.Extension),
 		macroState: object.NewMacroEnvironment(),
 		MaxDepth:   DefaultMaxDepth,
+		Context:    context.Background(),
 	}
 	st.rootEnv = st.env
 	return st
@@ -219,7 +221,9 @@ func EvalString(this any, code string, emptyEnv bool) (object.Object, error) {
 		}
 		evalState = NewBlankState()
 		evalState.MaxDepth = maxDepth
-		evalState.Context = ctx
+		if ctx != nil {
+			evalState.Context = ctx
+		}
 	} else {
 		if !ok {
 			return object.NULL, fmt.Errorf("invalid this: %T", this)
